@@ -46,6 +46,8 @@ def check_one(obj, step, xs):
     pair_of = {}
     for i in range(len(ser) - 1):
         pair_of.setdefault((ser[i]["p"], ser[i + 1]["p"], i), None)
+    if not all(np.isfinite(float(g[0])) and np.isfinite(float(g[1])) for g in got):
+        return "regrid reported a level or a position that is not finite: %s" % ([(float(a), float(b)) for a, b in got][:4],)
     if [int(g[0]) for g in got] != [n for n, _ in exp]:
         return "levels reported %s, specification %s" % ([int(g[0]) for g in got], [n for n, _ in exp])
     if any(pos is None for _, pos in exp):
@@ -58,7 +60,10 @@ def check_one(obj, step, xs):
         if abs(Fraction(float(gx)) - want) > Fraction(tol) * max(1, abs(Fraction(dx))):
             return "level %d reported at %r, exact position %s" % (n, float(gx), float(want))
     # means per level (build_head_mapping)
-    hm = fo.build_head_mapping([(x, y)], step)
+    try:
+        hm = fo.build_head_mapping([(x, y)], step)
+    except Exception as e:  # noqa
+        return "build_head_mapping raised %s: %s" % (type(e).__name__, e)
     want = {}
     for n, pos in exp:
         want.setdefault(n, []).append(Fraction(x0) + pos * Fraction(dx))
@@ -67,7 +72,7 @@ def check_one(obj, step, xs):
     for n, lst in want.items():
         mean = sum(lst) / len(lst)
         (sid, tm), = hm[n]
-        if sid != 0 or abs(Fraction(float(tm)) - mean) > Fraction(tol) * max(1, abs(Fraction(dx))):
+        if sid != 0 or not np.isfinite(float(tm)) or abs(Fraction(float(tm)) - mean) > Fraction(tol) * max(1, abs(Fraction(dx))):
             return "mean crossing of level %d is %r, exact %s" % (n, float(tm), float(mean))
     return None
 
@@ -82,7 +87,8 @@ def _worker(batch):
         if any(s["p"] == 0 and s["e"] != 0 for s in ser):
             steps.remove(2.0)     # (0 +- 1 ulp) / 2 underflows to 0: not presentable
         if not has_eps:
-            steps += [2.5, 5.0]
+            # 49, 75, 99: steps whose reciprocal is not exact -- a sample ON a level must still divide to the level
+            steps += [2.5, 5.0, 49.0, 75.0, 99.0]
             if generic:
                 steps += [0.1, 0.3]
         rng = random.Random(idx)
